@@ -458,7 +458,8 @@ Lemma block_bytes_prefix b1 b2 :
   b_proposer b1 < 2^32 -> b_proposer b2 < 2^32 -> b_view b1 < 2^64 -> b_view b2 < 2^64 ->
   block_bytes b1 = block_bytes b2 ->
   b_parent b1 = b_parent b2 /\ b_proposer b1 = b_proposer b2 /\ b_view b1 = b_view b2
-  /\ b_batch b1 ++ qc_bytes (b_cert b1) ++ le64 (ts_nanos (b_ts b1)) = b_batch b2 ++ qc_bytes (b_cert b2) ++ le64 (ts_nanos (b_ts b2)).
+  /\ le32 (N.of_nat (length (b_batch b1))) ++ b_batch b1 ++ qc_bytes (b_cert b1) ++ le64 (ts_nanos (b_ts b1))
+     = le32 (N.of_nat (length (b_batch b2))) ++ b_batch b2 ++ qc_bytes (b_cert b2) ++ le64 (ts_nanos (b_ts b2)).
 Proof.
   intros L1 L2 P1 P2 V1 V2 He. unfold block_bytes in He.
   apply app_inv_len in He as [Hp He]; [|congruence].
@@ -476,8 +477,8 @@ Theorem block_bytes_name_signers b1 b2 :
 Proof.
   intros N1 N2 [F1 L1] [F2 L2] He. unfold block_bytes, qc_bytes in He.
   rewrite (qc_sig_part_nonnil _ N1), (qc_sig_part_nonnil _ N2) in He.
-  assert (Hshape : forall (p i v c qv qh r pb t : bytes),
-             p ++ i ++ v ++ c ++ (qv ++ qh ++ r ++ pb) ++ t = (p ++ i ++ v ++ c ++ qv ++ qh ++ r) ++ pb ++ t).
+  assert (Hshape : forall (p i v l c qv qh r pb t : bytes),
+             p ++ i ++ v ++ l ++ c ++ (qv ++ qh ++ r ++ pb) ++ t = (p ++ i ++ v ++ l ++ c ++ qv ++ qh ++ r) ++ pb ++ t).
   { intros. now rewrite <- !app_assoc. }
   rewrite !Hshape in He.
   assert (HT : length (le64 (ts_nanos (b_ts b1))) = length (le64 (ts_nanos (b_ts b2))))
@@ -486,14 +487,15 @@ Proof.
   split; auto. apply le64_inj in Ht; auto using ts_nanos_lt.
 Qed.
 
-(* with batches of the same length (e.g. the same batch) equal bytes determine every component *)
+(* equal bytes determine every component (the batch length prefix frames batch against certificate);
+   batches are shorter than 2^32 bytes *)
 Theorem block_bytes_inj b1 b2 :
   length (b_parent b1) = 32%nat -> length (b_parent b2) = 32%nat ->
   b_proposer b1 < 2^32 -> b_proposer b2 < 2^32 -> b_view b1 < 2^64 -> b_view b2 < 2^64 ->
   length (qc_hash (b_cert b1)) = 32%nat -> length (qc_hash (b_cert b2)) = 32%nat ->
   qc_view (b_cert b1) < 2^64 -> qc_view (b_cert b2) < 2^64 ->
   ids_ok (qc_sig (b_cert b1)) -> ids_ok (qc_sig (b_cert b2)) ->
-  length (b_batch b1) = length (b_batch b2) ->
+  N.of_nat (length (b_batch b1)) < 2^32 -> N.of_nat (length (b_batch b2)) < 2^32 ->
   block_bytes b1 = block_bytes b2 ->
   b_parent b1 = b_parent b2 /\ b_proposer b1 = b_proposer b2 /\ b_view b1 = b_view b2 /\ b_batch b1 = b_batch b2
   /\ qc_view (b_cert b1) = qc_view (b_cert b2) /\ qc_hash (b_cert b1) = qc_hash (b_cert b2)
@@ -501,8 +503,10 @@ Theorem block_bytes_inj b1 b2 :
   /\ sig_raw (qc_sig (b_cert b1)) = sig_raw (qc_sig (b_cert b2)) /\ sig_ids (qc_sig (b_cert b1)) = sig_ids (qc_sig (b_cert b2))
   /\ ts_nanos (b_ts b1) = ts_nanos (b_ts b2).
 Proof.
-  intros L1 L2 P1 P2 V1 V2 H1 H2 Q1 Q2 I1 I2 Lb He.
+  intros L1 L2 P1 P2 V1 V2 H1 H2 Q1 Q2 I1 I2 B1 B2 He.
   apply block_bytes_prefix in He as (Hp & Hi & Hv & He); auto.
+  apply app_inv_len in He as [Hl He]; [|unfold le32; now rewrite !le_bytes_length].
+  apply le32_inj in Hl; auto. apply Nat2N.inj in Hl.
   apply app_inv_len in He as [Hb He]; auto.
   apply app_inv_tail_len in He as [Hq Ht]; [|unfold le64; now rewrite !le_bytes_length].
   apply le64_inj in Ht; auto using ts_nanos_lt.
@@ -521,6 +525,23 @@ Lemma old_block_bytes_name_signers_refuted :
     block_bytes b1 <> block_bytes b2.
 Proof.
   exists relabel_b1, relabel_b2. repeat split; try (vm_compute; reflexivity); vm_compute; discriminate.
+Qed.
+
+(* before the length prefix, batch and certificate could trade bytes: a block without commands whose
+   certificate's view field holds the 8 bytes 0a 06 1a 04 d0 d1 d2 d3, and a block whose batch is those 8
+   bytes (one command with data d0 d1 d2 d3), had the same bytes *)
+Definition shift_h2 : bytes := repeat 7 24 ++ repeat 9 8.
+Definition shift_b1 : block :=
+  mkBlock (repeat 0 32) 1 [] (mkQC (SigECDSA [(1, repeat 9 8 ++ [1; 2; 3])]) 15263492778464249354 (le64 41 ++ repeat 7 24)) 42 (5, 0)%Z.
+Definition shift_b2 : block :=
+  mkBlock (repeat 0 32) 1 [10; 6; 26; 4; 208; 209; 210; 211] (mkQC (SigECDSA [(1, [1; 2; 3])]) 41 shift_h2) 42 (5, 0)%Z.
+Lemma unframed_block_bytes_refuted :
+  exists b1 b2, wf_block (fun _ => None) b1 = true /\ wf_block (fun _ => None) b2 = true /\
+    block_bytes_unframed b1 = block_bytes_unframed b2 /\
+    b_batch b1 <> b_batch b2 /\ qc_view (b_cert b1) <> qc_view (b_cert b2) /\
+    block_bytes b1 <> block_bytes b2.
+Proof.
+  exists shift_b1, shift_b2. repeat split; try (vm_compute; reflexivity); vm_compute; discriminate.
 Qed.
 
 (* a block fetched by hash carries the certificate signers of the block that hash names *)
